@@ -11,7 +11,8 @@ if os.path.isdir(f"{dst}/demo"): shutil.rmtree(f"{dst}/demo")
 shutil.copytree(f"{src}/demo", f"{dst}/demo")
 m = json.load(open(f"{src}/meta.json"))
 m["origin"] = "independent sub-agent given only the property text and a scratch worktree"
-m["base_commit_of_patch_orig"] = "b548923"
+import subprocess
+m["base_commit_of_patch_orig"] = subprocess.check_output(["git","-C","/repo","rev-parse","--short","HEAD"]).decode().strip()
 m["confirmed_by"] = "tools/confirm_seed.sh in the agent's scratch worktree: build + unchanged suite pass with the change, demo fails with it and passes without it"
 m["checks_run"] = f"tools/try_seed.sh seeded/{name}/patch.diff <IDs> (quick tier)"
 m["caught_by"] = [c for c in caught.split(",") if c]
